@@ -199,3 +199,49 @@ def run_readonly(root, tag, compiler, seed, n_hist, n_req, oversize=False):
         finally:
             w.sc.stop(); shutil.rmtree(w.root, ignore_errors=True)
     return {'requests': reqs, 'hits_served_readonly': hits, 'entries_checked': entries, 'fails': fails, 'samples': samples}
+
+# ------------------------------------------------------------------------------------------------ compiler swaps (C12)
+def run_swap_histories(root, tag, seed, n_hist, n_req):
+    """the file at the compiler path is swapped among wrapper compilers (each injects a different -DWRAP=k) without
+    restarting the server; every request must equal a direct run of the wrapper then at the path"""
+    rng = random.Random(seed); fails = []; reqs = swaps = hits = 0; samples = []
+    for h in range(n_hist):
+        d = os.path.join(root, f'sw{h}'); shutil.rmtree(d, ignore_errors=True); w = os.path.join(d, 'w'); os.makedirs(w); os.makedirs(os.path.join(d, 'bin')); os.makedirs(os.path.join(d, 'variants'))
+        open(os.path.join(w, 'main.c'), 'w').write('int f(void) { return WRAP; }\n')
+        cc = os.path.join(d, 'bin', 'gcc'); use_symlink = (h % 2 == 1)
+        for k in range(3):
+            v = os.path.join(d, 'variants', f'gcc{k}')
+            open(v, 'w').write(f'#!/bin/sh\n# variant {k}\nexec /usr/bin/gcc -DWRAP={k} "$@"\n'); os.chmod(v, 0o755)
+            os.utime(v, (1_600_000_000 + k * 10, 1_600_000_000 + k * 10))
+        tick = [100]
+        def install(k):
+            tick[0] += 1
+            if use_symlink:
+                t = cc + '.new'
+                if os.path.lexists(t): os.remove(t)
+                os.symlink(os.path.join(d, 'variants', f'gcc{k}'), t); os.rename(t, cc)
+            else:
+                t = cc + '.new'; shutil.copy(os.path.join(d, 'variants', f'gcc{k}'), t); os.chmod(t, 0o755)
+                os.utime(t, (1_600_000_000 + tick[0], 1_600_000_000 + tick[0])); os.rename(t, cc)      # different contents *and* modification time
+        sc = Sc(os.path.join(d, 'sc'), f'{tag}{h}'); sc.start(); trace = []; cur = rng.randrange(3); install(cur)
+        try:
+            for i in range(n_req):
+                if rng.random() < 0.5:
+                    cur = rng.randrange(3); install(cur); swaps += 1; trace.append(f'install variant {cur}' + (' (symlink retarget)' if use_symlink else ''))
+                out = os.path.join(w, 'out.o')
+                for p in (out,):
+                    try: os.remove(p)
+                    except OSError: pass
+                b = counts(sc.stats() or {})
+                r = sc.compile([cc, '-c', 'main.c', '-o', 'out.o'], w); got = (r.returncode, file_state(out) and file_state(out)[0])
+                a = counts(sc.stats() or {}); cls = 'hit' if a.get('cache_hits', 0) > b.get('cache_hits', 0) else 'miss'
+                hits += cls == 'hit'
+                os.remove(out) if os.path.exists(out) else None
+                dr = subprocess.run([cc, '-c', 'main.c', '-o', 'out.o'], cwd=w, capture_output=True); want = (dr.returncode, file_state(out) and file_state(out)[0])
+                trace.append(f'request with variant {cur} at the path -> rc={got[0]} {cls}'); reqs += 1
+                if got != want:
+                    fails.append({'kind': 'stale_compiler_result', 'detail': f'request {i}: result differs from a direct run of the compiler now at the path (variant {cur}), classified {cls}', 'ops': list(trace)}); break
+            if len(samples) < 2: samples.append(' ; '.join(trace[:8]))
+        finally:
+            sc.stop(); shutil.rmtree(d, ignore_errors=True)
+    return {'requests': reqs, 'swaps': swaps, 'hits': hits, 'fails': fails, 'samples': samples}
